@@ -26,7 +26,9 @@ H(n) == Hide(WInt, I(n))
 Pool == <<
   Set("x", H(1)),
   Set("x", I(5)),
-  Set("c", MutE(WInt, V("x"))),
+  Set("c", MutE(WInt, I(1))),
+  Asg("=", V("c"), I(5)),
+  Set("r", Deref(V("c"))),
   Asg("+=", V("c"), V("x")),
   Set("f", FnE(<<P("a", WInt)>>, WInt, <<Ret(Bin("+", V("a"), V("x")))>>)),
   FnDecl("g", <<>>, WInt, <<Ret(Bin("*", V("x"), Deref(V("c"))))>>),
@@ -103,11 +105,19 @@ FnPool == <<
   [name |-> "nop", decl |-> FnDecl("nop", <<>>, WVoid, <<>>)],
   [name |-> "arrs", decl |-> FnDecl("arrs", <<P("a", WArr(WMulti(<<WInt, WFloat>>)))>>, WInt,
                                     <<Ret(RedE("$+", "int", TFilterE(IterE(V("a")), WInt)))>>)],
+  [name |-> "strs", decl |-> FnDecl("strs", <<P("a", WArr(WStr))>>, WInt, <<Ret(I(1))>>)],
+  [name |-> "ints", decl |-> FnDecl("ints", <<P("a", WArr(WInt))>>, WInt, <<Ret(I(1))>>)],
+  [name |-> "pair", decl |-> FnDecl("pair", <<P("a", WTup(<<WArr(WStr), WInt>>))>>, WInt, <<Ret(I(1))>>)],
   [name |-> "rec", decl |-> FnDecl("rec", <<P("n", WInt)>>, WInt,
                                    <<If1(Bin("<", V("n"), I(1)), Ret(I(0))), Ret(Bin("+", V("n"), CallE(V("rec"), <<Bin("-", V("n"), I(1))>>)))>>)]
 >>
-ArgPool == <<I(3), F(3), S(<<97>>), ArrE(<<>>), ArrE(<<I(1), I(2)>>), ArrE(<<I(1), F(3)>>), ArrE(<<S(<<97>>)>>), Unit, B(TRUE)>>
-ArgVectors == {<<>>} \cup {<<a>> : a \in 1..Len(ArgPool)} \cup {<<a, b>> : a \in {1, 2, 3}, b \in {1, 4, 5, 6, 7}}
+IsIntP == FnE(<<P("e", WMulti(<<WInt, WStr>>))>>, WBool, <<Ret(IfSet("n", WInt, V("e"), B(TRUE), B(FALSE)))>>)
+ArgPool == <<I(3), F(3), S(<<97>>), ArrE(<<>>), ArrE(<<I(1), I(2)>>), ArrE(<<I(1), F(3)>>), ArrE(<<S(<<97>>)>>), Unit, B(TRUE),
+             \* values whose hidden element type says more than their contents
+             RepE(I(1), I(0)), RepE(S(<<97>>), I(0)),
+             TupAt(PartE(IterE(ArrE(<<I(1), S(<<120>>), I(2)>>)), IsIntP), 0),
+             TupE(<<RepE(I(1), I(0)), I(2)>>)>>
+ArgVectors == {<<>>} \cup {<<a>> : a \in 1..Len(ArgPool)} \cup {<<a, b>> : a \in {1, 2, 3}, b \in {1, 4, 5, 6, 7, 10, 12}}
 
 HostCase(fi, av) ==
   LET fd == FnPool[fi]
